@@ -56,6 +56,7 @@ func checkC11(c *Ctx) {
 	ruleEmphEdge(c)
 	ruleEdgeLine(c)
 	ruleEmphClear(c)
+	ruleEmphCurrent(c)
 }
 
 type emphState struct {
